@@ -150,8 +150,10 @@ def should_strip_fragment(fragment):
 
 
 def normalize_hostname(hostname, normalize_amp=True):
-    hostname = hostname.strip().lower()
+    # NOTE: same order as in `normalize_url`: a control character may shield
+    # some whitespace
     hostname = CONTROL_CHARS_RE.sub("", hostname)
+    hostname = hostname.strip().lower()
 
     # NOTE: same order as in `normalize_url`: punycode first
     hostname = decode_punycode_hostname(hostname)
